@@ -469,6 +469,13 @@ func ReaderExecutor(data any, selectors []any) (any, error) {
 	if err != nil {
 		return nil, err
 	}
+	// a lazy table (a common table expression) is evaluated before a function sees it
+	if lazy, ok := rs.(func() (any, error)); ok {
+		rs, err = lazy()
+		if err != nil {
+			return nil, err
+		}
+	}
 	function, ok := topLevelFunctions[string(functionName)]
 	if !ok {
 		return nil, INVALID_FUNCTION.Extend(fmt.Sprintf("failed to execute function. %s is not a function", functionName))
